@@ -14,6 +14,7 @@ Case lines
   2 t (code a b)*          one engine cycle at time t and the mutations applied in it, in order
      TSS  1 add k | 2 remove k | 3 clear | 4 reserve c | 5 touch
      TSD  1 set k v | 2 erase k | 3 clear | 4 reserve c | 5 touch | 6 create k (at(k), child not written)
+          7 write k v: a live key's element written through its OWN output view, no dictionary-level operation
      TSW  1 push v | 3 clear
      TSB/TSL 1 set i v
      nested  1 add e to the set at key k (creating it) | 2 remove e from the set at key k | 3 erase key k | 4 clear
@@ -45,7 +46,7 @@ PROP_KINDS = {"C05": {
     "step", "disjoint", "added_absent", "added_was_present", "removed_present", "removed_was_absent",
     "net_effect", "unmodified_delta", "delta_surface", "value_surface", "op_result",
     "tsd_step_value", "tsd_added_not_modified", "tsd_modified_not_live", "tsd_removed_value",
-    "tsd_resurrect_lost_modified",
+    "tsd_resurrect_lost_modified", "tsd_modified_exact",
     "win_lastn", "win_valid", "win_delta", "win_evicted", "win_size", "shape", "crash",
     "notify", "fixed_step", "fixed_delta", "nested_step", "nested_child_step", "nested_unmodified_changed",
 }}
@@ -87,8 +88,10 @@ def _gen_set_cycle(rng, keys, kind, big):
                 ops += [5, 0, 0]
             elif r < 0.975:
                 ops += [4, rng.choice([0, 3, 8, 9, 12, 17, 20]), 0]
-            else:
+            elif r < 0.988:
                 ops += [6, k, 0]
+            else:
+                ops += [7, k, rng.randint(1, 9)]
     return ops
 
 
@@ -176,6 +179,55 @@ def _gen_growth_remove(rng, kind, mode, i32, tier):
     return case
 
 
+def _gen_child_writes(rng, mode, i32, tier):
+    """TSD: cycles in which elements are written ONLY through their own output views (no dictionary-level operation),
+    right after cycles that modified / added / removed several keys: the dictionary must roll its delta window from
+    record_child_modified alone, and the delta of such a cycle is exactly the keys written in it."""
+    keys = list(range(1, rng.randint(3, 6) + 1))
+    t = rng.randint(1, 3)
+    case = [[1, 2, mode, i32, 0]]
+    case.append([2, t] + [x for k in keys for x in (1, k, rng.randint(1, 9))])
+    live = set(keys)
+    for _ in range(rng.randint(3, 10 if tier == "quick" else 24)):
+        t += rng.choice([1, 1, 2, 3])
+        r = rng.random()
+        ops = []
+        if r < 0.45 and live:
+            # child-only cycle: 1-3 elements, mostly ones that were touched by the previous cycles too
+            for k in rng.sample(sorted(live), rng.randint(1, min(3, len(live)))):
+                ops += [7, k, rng.randint(1, 9)]
+                if rng.random() < 0.25:
+                    ops += [7, k, rng.randint(1, 9)]            # written twice in the cycle
+            if rng.random() < 0.15:
+                ops += [7, rng.choice(keys), 5]                  # possibly a key that is not live: ignored
+        elif r < 0.55:
+            ops = []                                             # gap
+        elif r < 0.70 and live:
+            # child write FIRST, dictionary-level operations after it
+            k = rng.choice(sorted(live))
+            ops += [7, k, rng.randint(1, 9)]
+            ops += _gen_set_cycle(rng, keys, 2, False)
+        else:
+            # a multi-key dictionary-level cycle: several sets, an erase, possibly a re-creation
+            for k in rng.sample(keys, rng.randint(2, len(keys))):
+                if rng.random() < 0.75:
+                    ops += [1, k, rng.randint(1, 9)]
+                else:
+                    ops += [2, k, 0]
+            if rng.random() < 0.3:
+                ops += [7, rng.choice(keys), rng.randint(1, 9)]
+        for i in range(0, len(ops), 3):
+            c, a = ops[i], ops[i + 1]
+            if c in (1, 6):
+                live.add(a)
+            elif c == 2:
+                live.discard(a)
+            elif c == 3:
+                live.clear()
+        case.append([2, t] + ops)
+    return case
+
+
 def gen(rng, tier, prop):
     r = rng.random()
     kind = 1 if r < 0.30 else (2 if r < 0.62 else (3 if r < 0.76 else (4 if r < 0.86 else (7 if r < 0.93 else 8))))
@@ -207,6 +259,8 @@ def gen(rng, tier, prop):
             t += rng.choice([1, 1, 1, 2, 5])
         return case
     i32 = 1 if rng.random() < 0.5 else 0
+    if kind == 2 and rng.random() < 0.22:
+        return _gen_child_writes(rng, mode, i32, tier)
     if rng.random() < 0.15:
         return _gen_growth_remove(rng, kind, mode, i32, tier)
     keys = _keys(rng, tier)
@@ -445,6 +499,15 @@ def _oracle_tsd(cycles, blocks):
             elif c == 5:
                 touched = True
                 results.append(0)
+            elif c == 7:
+                if a in spec or a in ghost:
+                    spec[a] = v
+                    ghost.discard(a)
+                    state[a] = "w"
+                    touched = True
+                    results.append(0)
+                else:
+                    results.append(-2)
             elif c == 6:
                 results.append(None)
                 if a in spec or a in ghost:
@@ -482,6 +545,11 @@ def _oracle_tsd(cycles, blocks):
         if applied != cur:
             fails.append((kind_v, "t=%d previous %s with delta {removed %s, modified %s} gives %s, observed %s"
                           % (t, sorted(prev.items()), sorted(drem), sorted(dmod.items()), sorted(applied.items()), sorted(cur.items()))))
+        # the delta is EXACTLY this cycle's: modified keys = the keys written in this cycle that are live at its end
+        written = {k for k, st in state.items() if st == "w" and k in spec}
+        if M != written:
+            fails.append(("tsd_resurrect_lost_modified" if (pattern and written - M) else "tsd_modified_exact",
+                          "t=%d modified keys %s but the keys written in this cycle (and live) are %s" % (t, sorted(M), sorted(written))))
         if A - M:
             fails.append(("tsd_resurrect_lost_modified" if pattern else "tsd_added_not_modified",
                           "t=%d added keys %s are not in modified keys %s" % (t, sorted(A - M), sorted(M))))
@@ -697,6 +765,10 @@ def _events(case):
         for t, ops in cycles:
             if not ops:
                 ev["gap_cycles"] += 1
+            if kind == 2 and ops and all(c == 7 for (c, _a, _v) in ops):
+                ev["child_only_cycles"] = ev.get("child_only_cycles", 0) + 1
+            if kind == 2 and ops and ops[0][0] == 7:
+                ev["child_write_first"] = ev.get("child_write_first", 0) + 1
             seq = {}
             for (c, a, _v) in ops:
                 if c in (1, 2):
